@@ -1,7 +1,7 @@
 SPECIFICATION Spec
 CONSTANTS K = 2
-          Vals = {"x"}
-          Ranges = {12}
+          Vals = {"x", "y"}
+          Ranges = {12, 22}
           WithBatch = TRUE
           Mode = "edge"
           Depth = 0
